@@ -7,6 +7,7 @@ use kvarn::prelude::*;
 use kvarn::limiting::{Action as LimitAction, Manager as LimitManager};
 use std::net::{IpAddr, Ipv4Addr, Ipv6Addr, SocketAddr};
 use std::sync::atomic::{AtomicU32, Ordering};
+use std::sync::Arc;
 use std::time::{Duration, Instant};
 
 /// (L (N max) (N check_every) (L (N kind) (N v)))  — v in milliseconds
@@ -280,6 +281,105 @@ enum Answer {
     Stalled,
 }
 
+// ---- TLS + HTTP/2 client (bind kind 3): the same histories over one h2 connection per client connection ----
+struct Tls {
+    key: Arc<rustls::sign::CertifiedKey>,
+    client_h2: Arc<rustls::ClientConfig>,
+}
+fn tls() -> &'static Tls {
+    static TLS: std::sync::OnceLock<Tls> = std::sync::OnceLock::new();
+    TLS.get_or_init(|| {
+        use rustls::pki_types::PrivateKeyDer;
+        let provider = Arc::new(rustls::crypto::ring::default_provider());
+        let ss = rcgen::generate_simple_self_signed(vec![HOSTNAME.to_string()]).expect("self-signed certificate");
+        let cert = ss.cert.der().clone();
+        let pk = PrivateKeyDer::Pkcs8(ss.key_pair.serialized_der().to_vec().into());
+        let pk = rustls::crypto::ring::sign::any_supported_type(&pk).expect("key type");
+        let key = Arc::new(rustls::sign::CertifiedKey::new(vec![cert.clone()], pk));
+        let mut roots = rustls::RootCertStore::empty();
+        roots.add(cert).expect("root");
+        let mut c = rustls::ClientConfig::builder_with_provider(provider)
+            .with_safe_default_protocol_versions()
+            .expect("versions")
+            .with_root_certificates(roots)
+            .with_no_client_auth();
+        c.alpn_protocols = vec![b"h2".to_vec()];
+        Tls { key, client_h2: Arc::new(c) }
+    })
+}
+
+/// One client connection: HTTP/1.1 over TCP, or HTTP/2 over TLS.
+enum Client {
+    H1(tokio::net::TcpStream),
+    H2(h2::client::SendRequest<Bytes>),
+    /// the TLS or h2 handshake did not complete because the server closed the connection
+    Closed,
+}
+
+impl Client {
+    async fn open(stream: tokio::net::TcpStream, secure: bool, deadline: Duration) -> Result<Client, Answer> {
+        if !secure {
+            return Ok(Client::H1(stream));
+        }
+        let name = rustls::pki_types::ServerName::try_from(HOSTNAME).unwrap();
+        let s = match tokio::time::timeout(deadline, tokio_rustls::TlsConnector::from(tls().client_h2.clone()).connect(name, stream)).await {
+            Err(_) => return Err(Answer::Stalled),
+            Ok(Err(_)) => return Ok(Client::Closed),
+            Ok(Ok(s)) => s,
+        };
+        match tokio::time::timeout(deadline, h2::client::Builder::new().handshake::<_, Bytes>(s)).await {
+            Err(_) => Err(Answer::Stalled),
+            Ok(Err(_)) => Ok(Client::Closed),
+            Ok(Ok((send, conn))) => {
+                tokio::spawn(async move {
+                    let _ = conn.await;
+                });
+                Ok(Client::H2(send))
+            }
+        }
+    }
+    async fn exchange(&mut self, host: &str, deadline: Duration) -> Answer {
+        match self {
+            Client::H1(stream) => exchange(stream, host, deadline).await,
+            Client::Closed => Answer::Cut,
+            Client::H2(send) => {
+                let uri = format!("https://{host}/");
+                let req = match Request::builder().method("GET").uri(uri).body(()) {
+                    Ok(r) => r,
+                    Err(_) => return Answer::Cut,
+                };
+                let mut ready = match tokio::time::timeout(deadline, send.clone().ready()).await {
+                    Err(_) => return Answer::Stalled,
+                    Ok(Err(_)) => return Answer::Cut,
+                    Ok(Ok(s)) => s,
+                };
+                let (resp, _stream) = match ready.send_request(req, true) {
+                    Ok(r) => r,
+                    Err(_) => return Answer::Cut,
+                };
+                let resp = match tokio::time::timeout(deadline, resp).await {
+                    Err(_) => return Answer::Stalled,
+                    Ok(Err(_)) => return Answer::Cut,
+                    Ok(Ok(r)) => r,
+                };
+                let status = resp.status().as_u16();
+                let mut body = resp.into_body();
+                loop {
+                    match tokio::time::timeout(deadline, body.data()).await {
+                        Err(_) => return Answer::Stalled,
+                        Ok(None) => break,
+                        Ok(Some(Err(_))) => return Answer::Cut,
+                        Ok(Some(Ok(chunk))) => {
+                            let _ = body.flow_control().release_capacity(chunk.len());
+                        }
+                    }
+                }
+                Answer::Status(status)
+            }
+        }
+    }
+}
+
 /// Sends one GET and reads one framed response (head + content-length bytes).
 /// `Stalled`: the connection stayed open and nothing (more) arrived for `deadline`.
 async fn exchange(stream: &mut tokio::net::TcpStream, host: &str, deadline: Duration) -> Answer {
@@ -464,6 +564,9 @@ async fn serve_once(sc: &SConf, evs: &[Ev], deadline: Duration) -> Attempt {
     ext.add_prepare_single("/", kvarn::prepare!(_, _, _, _, { FatResponse::no_cache(Response::new(Bytes::from_static(b"ok"))) }));
     let mut host = Host::unsecure(HOSTNAME, "/nonexistent/kvh-c12", ext, host::Options::default());
     host.disable_fs_cache().disable_response_cache();
+    if sc.bind == 3 {
+        *host.certificate.write().unwrap() = Some(tls().key.clone());
+    }
     match sc.path {
         0 => host.limiter = LimitManager::new(sc.host.0, sc.host.1, sc.host.2),
         // the normal way: the Host comes with LimitManager::default(), the setters tune it
@@ -492,13 +595,18 @@ async fn serve_once(sc: &SConf, evs: &[Ev], deadline: Duration) -> Attempt {
         builder = builder.set_pre_host_limiter(pre);
     }
     let data = builder.build();
-    let mut descriptor = PortDescriptor::unsecure(port, data);
+    let secure = sc.bind == 3;
+    let mut descriptor = if secure { PortDescriptor::new(port, data) } else { PortDescriptor::unsecure(port, data) };
     descriptor = match sc.bind {
-        0 => descriptor.ipv4_only(),
+        0 | 3 => descriptor.ipv4_only(),
         2 => descriptor.ipv6_only(),
         _ => descriptor,
     };
-    let shutdown = RunConfig::new().bind(descriptor).disable_ctl().execute().await;
+    // a bind that fails (the UDP port of the QUIC listener of a secure descriptor is not reserved) panics inside execute
+    let shutdown = match tokio::spawn(async move { RunConfig::new().bind(descriptor).disable_ctl().execute().await }).await {
+        Ok(s) => s,
+        Err(_) => return Attempt::Trouble(2),
+    };
 
     let mut results = Vec::new();
     let mut first = true;
@@ -615,7 +723,7 @@ async fn serve_once(sc: &SConf, evs: &[Ev], deadline: Duration) -> Attempt {
                 inject::restore();
                 fewer_failures = inject::FAILS.load(std::sync::atomic::Ordering::SeqCst) < n.min(100);
             }
-            let mut stream = match stream {
+            let stream = match stream {
                 Some(s) => s,
                 None => {
                     if first && !down {
@@ -629,8 +737,16 @@ async fn serve_once(sc: &SConf, evs: &[Ev], deadline: Duration) -> Attempt {
             first = false;
             let mut statuses = Vec::new();
             let mut cut = false;
+            let mut client = match Client::open(stream, secure, deadline).await {
+                Ok(c) => c,
+                Err(_) => {
+                    results.push(X::L(vec![X::N(4), X::L(Vec::new())]));
+                    stalled = true;
+                    break 'evs;
+                }
+            };
             for target in targets.iter() {
-                match exchange(&mut stream, &host_name(*target), deadline).await {
+                match client.exchange(&host_name(*target), deadline).await {
                     Answer::Status(s) => statuses.push(X::n(s)),
                     Answer::Cut => {
                         cut = true;
@@ -642,7 +758,7 @@ async fn serve_once(sc: &SConf, evs: &[Ev], deadline: Duration) -> Attempt {
                     }
                 }
             }
-            drop(stream);
+            drop(client);
             if stalled {
                 results.push(X::L(vec![X::N(4), X::L(statuses)]));
                 break 'evs;
@@ -678,9 +794,12 @@ async fn serve_once(sc: &SConf, evs: &[Ev], deadline: Duration) -> Attempt {
         0
     } else {
         match connect_from(Ipv4Addr::new(127, 0, 0, 200), port).await {
-            Ok(mut s) => match exchange(&mut s, HOSTNAME, deadline).await {
-                Answer::Status(_) | Answer::Cut => 1u128,
-                Answer::Stalled => 4,
+            Ok(s) => match Client::open(s, secure, deadline).await {
+                Ok(mut c) => match c.exchange(HOSTNAME, deadline).await {
+                    Answer::Status(_) | Answer::Cut => 1u128,
+                    Answer::Stalled => 4,
+                },
+                Err(_) => 4,
             },
             Err(_) => 0,
         }
@@ -732,7 +851,11 @@ pub fn server(x: &X, with_events: bool, with_hosts: bool) -> X {
         },
         _ => return X::bad(),
     };
-    let bind = match s[3].as_n() { Some(b) if b <= 2 => b, _ => return X::bad() };
+    let bind = match s[3].as_n() { Some(b) if b <= 3 => b, _ => return X::bad() };
+    if with_hosts && bind == 3 {
+        // over TLS the host is chosen by the SNI name of the connection, not per request: not expressible here
+        return X::L(vec![X::N(96)]);
+    }
     let mut extra = Vec::new();
     if with_hosts {
         for c in match s[4].as_l() { Some(c) => c, None => return X::bad() } {
@@ -780,7 +903,7 @@ pub fn server(x: &X, with_events: bool, with_hosts: bool) -> X {
     for (i, e) in evs.iter().enumerate() {
         if let Ev::Errs(_) = e {
             let next_is_conn = evs[i + 1..].iter().find(|e| !matches!(e, Ev::Errs(_))).map_or(false, |e| matches!(e, Ev::Conn(..)));
-            if !next_is_conn || bind != 0 || !cfg!(feature = "hooks") {
+            if !next_is_conn || (bind != 0 && bind != 3) || !cfg!(feature = "hooks") {
                 return X::L(vec![X::N(96)]);
             }
         }
